@@ -98,7 +98,7 @@ def invariant_fails(x, kind, what):
     if len(x.qD) != L + 1:
         fails.append(f'{what}: len(qD) = {len(x.qD)} != nsites + 1')
         return fails
-    ax = (1, 2) if kind == 'mps' else (2, 3)
+    ax = (1, 2) if kind in ('mps', 'mps_open') else (2, 3)
     for i in range(L):
         if x.A[i].shape[ax[0]] != len(x.qD[i]) or x.A[i].shape[ax[1]] != len(x.qD[i + 1]):
             fails.append(f'{what}: bond dimensions of A[{i}] {x.A[i].shape} do not match len(qD) = {len(x.qD[i])}, {len(x.qD[i + 1])}')
@@ -112,7 +112,7 @@ def invariant_fails(x, kind, what):
 def sparsity_fails(eng, acc, x, kind, what):
     fails = []
     for i in range(len(x.A)):
-        q = [x.qd, x.qD[i], -np.asarray(x.qD[i + 1], dtype=object)] if kind == 'mps' else \
+        q = [x.qd, x.qD[i], -np.asarray(x.qD[i + 1], dtype=object)] if kind in ('mps', 'mps_open') else \
             [x.qd, -np.asarray(x.qd, dtype=object), x.qD[i], -np.asarray(x.qD[i + 1], dtype=object)]
         q = [np.asarray(v, dtype=object) for v in q]
         fails += sparsity_vcs(eng, acc, x.A[i], q, f'{what}.A[{i}]')
